@@ -707,3 +707,73 @@ def n14_hoist(text):
         recs.append(dict(rule='N14', before='nested item: ' + squash(item)[:60], after='hoisted to module level'))
         text = text[:a] + text[b:]
     return text, '\n'.join(hoisted), recs
+
+
+def n4b_ok_and_then(text):
+    """N4b: `X.ok().and_then([move] |_| B)` -> `match X { Ok(_) => B, Err(_) => None }`
+    (definitional unfolding of Result::ok followed by Option::and_then; Verus rejects closures capturing &mut)."""
+    recs = []
+    while True:
+        ft = FnText(text)
+        toks = ft.toks
+        hit = None
+        for k in ft.c:
+            t = toks[k]
+            if t.kind == 'ident' and t.text == 'ok' and toks[ft.prevc(k)].text == '.':
+                o = ft.nextc(k)
+                if toks[o].text != '(' or toks[ft.nextc(o)].text != ')':
+                    continue
+                d2 = ft.nextc(ft.nextc(o))
+                if toks[d2].text != '.':
+                    continue
+                at = ft.nextc(d2)
+                if toks[at].text != 'and_then':
+                    continue
+                po = ft.nextc(at)
+                if toks[po].text != '(':
+                    continue
+                b = ft.nextc(po)
+                if toks[b].text == 'move':
+                    b = ft.nextc(b)
+                if toks[b].text != '|':
+                    continue
+                u = ft.nextc(b)
+                if toks[u].text != '_' or toks[ft.nextc(u)].text != '|':
+                    continue
+                body0 = ft.nextc(ft.nextc(u))
+                close = match_close(toks, po)
+                dot = ft.prevc(k)
+                # receiver start
+                j = dot - 1
+                depth = 0
+                start = None
+                while j >= 0:
+                    w = toks[j]
+                    if w.kind == 'punct':
+                        if w.text in CLOSE:
+                            depth += 1
+                        elif w.text in OPEN:
+                            if depth == 0:
+                                start = j + 1
+                                break
+                            depth -= 1
+                        elif depth == 0 and w.text in ('=', ';', ',', '=>'):
+                            start = j + 1
+                            break
+                    elif w.kind == 'ident' and depth == 0 and w.text in ('return', 'in', 'else'):
+                        start = j + 1
+                        break
+                    j -= 1
+                while toks[start].kind in ('ws', 'lcomment', 'bcomment', 'doc'):
+                    start += 1
+                hit = (start, dot, body0, close)
+                break
+        if hit is None:
+            break
+        start, dot, body0, close = hit
+        edits = [(toks[start].start, toks[start].start, 'match '),
+                 (toks[dot].start, toks[body0].start, ' { Ok(_) => '),
+                 (toks[close].start, toks[close].end, ', Err(_) => None }')]
+        text = apply_edits(text, edits)
+        recs.append(dict(rule='N4b', before='X.ok().and_then(|_| B)', after='match X { Ok(_) => B, Err(_) => None }'))
+    return text, recs
